@@ -357,7 +357,7 @@ func (w *world) main() {
 	if _, ok := vsched.Recv2(res); ok {
 		w.misuse = "a result was delivered after the channel was closed"
 	}
-	if w.id == "C02" && !p.Second {
+	if w.id == "C02" && !p.Second && !p.DNS { // (not with the DNS refresh goroutine: whether the attack itself stops it at its end is what those scenarios observe)
 		// Stop calls that arrive when the attack is over (racing with its wind-down)
 		// count as well: still at most one Stop of the whole history reports true
 		w.stops = append(w.stops, atk.Stop())
